@@ -6,7 +6,8 @@
 //                (b) every factor/offset against the independent physical table `ref::` below (written from the unit
 //                    definitions, not from Units.hpp);
 //                (c) every dimension string that occurs on any ParserItem of any keyword (collected reflectively)
-//                    parses to the product/quotient of its base factors - the library's own and the reference's;
+//                    parses to the product/quotient of its base factors - the library's own and the reference's; every
+//                    unit string of the field-property keyword table parses and agrees with the keyword's own dimension;
 //                (d) every keyword JSON file of the build's keyword list constructs a ParserKeyword that is equal,
 //                    attribute by attribute (own comparison through the public getters, ParserKeyword::operator==
 //                    returns early), to the built-in keyword produced by the generator;
@@ -18,8 +19,9 @@
 //                    (and the reference SI value), defaulted items included.
 //   part=model   (e) one physical model (grid, PVT/saturation/solution tables, field property operations, wells, groups,
 //                    segments, schedule) written in the four unit systems with *harness-stated* physical dimensions;
-//                    Deck SI values, TableManager, field properties, grid geometry and Schedule limits/rates must agree
-//                    to 1e-12 relative.
+//                    Deck SI values, the serialised EclipseState (all tables) and every ScheduleState, field properties,
+//                    grid geometry and the evaluated well / group limits must agree to 1e-12 relative (1e-9 for quantities
+//                    the library computes by differences of coordinates and table look-ups).
 #include <config.h>
 #include "common/gkw.hpp"
 #include "common/ser_includes.hpp"
@@ -1714,6 +1716,13 @@ static void observeModel(const Parser& parser, const std::string& text, const st
     } catch (const std::exception& e) { mo.err = e.what(); }
 }
 
+// the site of an entry: its path with every number replaced by '#'
+static std::string siteOf(const std::string& path) {
+    std::string o;
+    for (char c : path) { if (std::isdigit((unsigned char)c)) { if (o.empty() || o.back() != '#') o += '#'; } else o += c; }
+    return o;
+}
+
 static int runModel(const vh::Args& args, vh::Reporter& rep, Env& env) {
     auto python = std::make_shared<Python>();
     rep.run_cases([&](long idx, Rng& rng) {
@@ -1757,7 +1766,7 @@ static int runModel(const vh::Args& args, vh::Reporter& rep, Env& env) {
                     const Ent& a = A[i]; const Ent& b = B[i];
                     if (a.path == "VFPPROD[0].UNITS[0]" && b.path == a.path) continue;     // written differently on purpose (see rendering)
                     if (a.path != b.path || a.num != b.num || (!a.num && a.txt != b.txt)) {
-                        std::string site = a.path; for (auto& c : site) if (std::isdigit((unsigned char)c)) c = '#';
+                        std::string site = siteOf(a.path);
                         rep.violation("model-structure-differs:" + sn + ":" + site.substr(0, 80), sn + ": entry " + a.path + " is '" + (a.num ? g17(a.v) : a.txt) + "' in METRIC but " + b.path + " '" + (b.num ? g17(b.v) : b.txt) + "' in " + SYSKEY[s],
                                       witness(s));
                         structural = true;
@@ -1767,7 +1776,11 @@ static int runModel(const vh::Args& args, vh::Reporter& rep, Env& env) {
                     // 1e-12 for everything that is read and converted.  Cell volumes, thicknesses, centres and pore volumes are
                     // *computed* from corner coordinates by differences and determinants (cells of per-cell DX/DY can be slivers
                     // of a few m^3 between coordinates of several 100 m): 1e-9 relative to at least 1 m / 1000 m^3 / 100 m^3.
-                    const bool geometry = sn == "grid" || (sn == "field-properties" && a.path.compare(0, 4, "PORV") == 0);
+                    // The same holds for what the library computes from that geometry and from table look-ups: connection factors and
+                    // equivalent radii (CTFProperties: r0 = rw exp(2 pi Kh/CF - S) ...), aquifer face areas and aquifer constants.
+                    const bool geometry = sn == "grid" || (sn == "field-properties" && a.path.compare(0, 4, "PORV") == 0) ||
+                                          a.path.find("CTFProperties") != std::string::npos || a.path.find("Aquanc") != std::string::npos ||
+                                          a.path.find("AquiferCT") != std::string::npos || a.path.find("Aquifetp") != std::string::npos;
                     const double tol = geometry ? 1e-9 : 1e-12;
                     const double floor_ = !geometry ? 0.0 : (a.path.compare(0, 6, "volume") == 0 ? 1000.0 : (a.path.compare(0, 4, "PORV") == 0 ? 100.0 : 1.0));
                     double e = vh::reldiff(a.v, b.v, floor_);
@@ -1775,9 +1788,9 @@ static int runModel(const vh::Args& args, vh::Reporter& rep, Env& env) {
                     // quantity that is converted on use - those are observed through the evaluated controls below
                     if (a.udaNoDim && b.udaNoDim && e > 1e-12) { rep.count("uda_without_dimension_not_compared"); continue; }
                     ++compared;
-                    if (e <= tol) rep.maxof(std::string("max_rel_diff_within_tolerance_") + (geometry ? "computed_geometry" : sn.c_str()), e);
+                    if (e <= tol) rep.maxof(std::string("max_rel_diff_within_tolerance_") + (geometry ? "computed_quantities" : sn.c_str()), e);
                     if (!(e <= tol)) {
-                        std::string site = a.path; for (auto& c : site) if (std::isdigit((unsigned char)c)) c = '#';
+                        std::string site = siteOf(a.path);
                         ++reported;
                         // the production limits of P1 after a WELTARG on an item that the preceding WCONPROD defaulted: named situation
                         for (const auto& wn : mi.weltargOnDefaultedItem)
